@@ -590,17 +590,37 @@ impl Xot {
         let mut used_prefix_ids: HashSet<PrefixId> =
             self.namespaces_in_scope(node).map(|(p, _)| p).collect();
         let mut missing_namespace_ids = HashSet::default();
+        // elements in no namespace that are in the scope of a default
+        // namespace: they need a xmlns="" declaration
+        let mut undeclare_default_nodes = Vec::new();
+        // whether we pushed declarations for the elements we are in
+        let mut pushed = Vec::new();
         for edge in self.traverse(node) {
             match edge {
                 NodeEdge::Start(node) => {
                     let element = self.element(node);
                     if let Some(element) = element {
                         used_prefix_ids.extend(self.namespaces(node).keys());
-                        fullname_serializer.push(self.namespace_declarations(node));
+                        let mut declarations = self.namespace_declarations(node);
+                        let namespace_id = self.namespace_for_name(element.name_id);
+                        if namespace_id == self.no_namespace_id {
+                            let default_namespace_id = declarations
+                                .iter()
+                                .find(|(p, _)| *p == self.empty_prefix_id)
+                                .map(|(_, n)| *n)
+                                .unwrap_or_else(|| fullname_serializer.default_namespace());
+                            if default_namespace_id != self.no_namespace_id {
+                                // continue as if the declaration were there already
+                                declarations.retain(|(p, _)| *p != self.empty_prefix_id);
+                                declarations.push((self.empty_prefix_id, self.no_namespace_id));
+                                undeclare_default_nodes.push(node);
+                            }
+                        }
+                        pushed.push(!declarations.is_empty());
+                        fullname_serializer.push(declarations);
                         let element_fullname =
                             fullname_serializer.element_fullname(element.name_id);
                         if element_fullname.is_err() {
-                            let namespace_id = self.namespace_for_name(element.name_id);
                             missing_namespace_ids.insert(namespace_id);
                         }
                         for name_id in self.attributes(node).keys() {
@@ -615,10 +635,15 @@ impl Xot {
                 }
                 NodeEdge::End(node) => {
                     if self.is_element(node) {
-                        fullname_serializer.pop(self.has_namespace_declarations(node));
+                        fullname_serializer.pop(pushed.pop().unwrap());
                     }
                 }
             }
+        }
+        for undeclare_default_node in undeclare_default_nodes {
+            let (empty_prefix_id, no_namespace_id) = (self.empty_prefix_id, self.no_namespace_id);
+            self.namespaces_mut(undeclare_default_node)
+                .insert(empty_prefix_id, no_namespace_id);
         }
         let mut prefixes_to_add = HashMap::default();
         let mut i = 0;
